@@ -50,7 +50,11 @@ func (r *Recorder) NonTrivial(key string) {
 
 func (r *Recorder) Class(name string) { r.mu.Lock(); r.classes[name]++; r.mu.Unlock() }
 
-func (r *Recorder) ClassN(name string, n int) { r.mu.Lock(); r.classes[name] += int64(n); r.mu.Unlock() }
+func (r *Recorder) ClassN(name string, n int) {
+	r.mu.Lock()
+	r.classes[name] += int64(n)
+	r.mu.Unlock()
+}
 
 func (r *Recorder) Known(id string) { r.mu.Lock(); r.known[id]++; r.mu.Unlock() }
 
@@ -110,7 +114,11 @@ type Shard struct {
 
 func (r *Recorder) Evaluations() int64 { r.mu.Lock(); defer r.mu.Unlock(); return r.evaluations }
 
-func (r *Recorder) ClassCount(name string) int64 { r.mu.Lock(); defer r.mu.Unlock(); return r.classes[name] }
+func (r *Recorder) ClassCount(name string) int64 {
+	r.mu.Lock()
+	defer r.mu.Unlock()
+	return r.classes[name]
+}
 
 func (r *Recorder) Write(path string) error {
 	r.mu.Lock()
